@@ -167,6 +167,61 @@ def rule_R12_7(ctx):
     return r
 
 
+PROP_MAP = "BTreeMap<std::string::String, eval::value::SourcedValue>"
+
+
+def rule_R12_9(ctx):
+    """Direction of bulk merges into a property map that is being built.
+    `a.append(&mut b)` / `a.extend(b)` let b's entries replace a's; an
+    accumulator that already holds the earlier entries of a literal may
+    therefore only ever be the receiver, never the argument."""
+    import inline
+    prog = ctx.prog
+    r = RuleResult("R12.9", "entries take effect in source order: the map a "
+                   "literal accumulates into is only ever the receiver of "
+                   "`insert`/`append`/`extend`, never the operand folded "
+                   "into another map",
+                   "`other.append(&mut acc)` lets the entries collected so "
+                   "far overwrite a later spread's (`{k: 1, big..}` keeps "
+                   "`k: 1` although `big.k` comes later)")
+    n_acc = 0
+    n_bulk = 0
+    for f0 in prog.hand_fns():
+        if f0.is_closure or f0.from_expansion or f0.generated:
+            continue
+        f = inline.view(prog, f0)
+        accs = set()
+        bulk = []
+        for c in f.calls():
+            full = c.res_full or ""
+            if c.is_ptr or "BTreeMap<" not in full.replace("BTreeMap::<", "BTreeMap<") or "SourcedValue" not in full:
+                continue
+            last = (c.res or "").split("::")[-1]
+            if last == "insert" and c.args:
+                cp = f.canon_op(c.args[0])
+                if cp and cp[0][0] in ("local", "call"):
+                    accs.add(cp[0])
+            elif last in ("append", "extend") and len(c.args) > 1:
+                bulk.append(c)
+        n_acc += len(accs)
+        for c in bulk:
+            n_bulk += 1
+            cp = f.canon_op(c.args[1])
+            if cp and cp[0] in accs:
+                r.fail("%s | accumulated entries folded into another map via %s" % (f0.path, (c.res or "").split("::")[-1]),
+                       "%s passes the map it has been inserting into as the "
+                       "*argument* of `%s`: the earlier entries then replace "
+                       "the receiver's, inverting `later entry wins`"
+                       % (f0.path, (c.res or "").split("::")[-1]), where=c.loc)
+            else:
+                r.ok()
+    r.inst("property-map accumulators (receivers of insert): %d; bulk merges looked at: %d" % (n_acc, n_bulk))
+    if not n_bulk:
+        r.ok()
+    r.require_floor("property-map accumulators", n_acc, 1)
+    return r
+
+
 def run(ctx):
     import c19 as _c19
     r3 = _c19.rule_R19_2(ctx)
@@ -205,7 +260,7 @@ def run(ctx):
     r8 = c16.rule_R16_8(ctx, "R12.8")
     r8.title = ("property names are computed by evaluating the name expression (no answer from its syntax alone)")
     import c11
-    return [rule_R12_1(ctx), c11.with_views(rule_R12_2, ctx), r3, r4, r5, r6, rule_R12_7(ctx), r8]
+    return [rule_R12_1(ctx), c11.with_views(rule_R12_2, ctx), r3, r4, r5, r6, rule_R12_7(ctx), r8, rule_R12_9(ctx)]
 
 
 META = {
